@@ -315,7 +315,12 @@ class Interp:
             if t in ('double', 'float') and isinstance(v, int) and not isinstance(v, bool):
                 return float(v)
             if t in ('int', 'long', 'std::int64_t', 'long long', 'unsigned long', 'size_t') and isinstance(v, float):
-                return int(v)
+                v = int(v)
+            if t == 'int' and isinstance(v, int) and not isinstance(v, bool) and not (-2 ** 31 <= v < 2 ** 31):
+                # a 32-bit target cannot hold the value: what the conversion yields is not the value (undefined for a floating source,
+                # modulo 2^32 for an integral one) — modelled as the wrapped value, so that a result that went through `int` differs
+                w_ = v & 0xFFFFFFFF
+                return w_ - 2 ** 32 if w_ >= 2 ** 31 else w_
             return v
         if k == 'un':
             op = e['op']
